@@ -473,3 +473,83 @@ def _mw_prefix(L):
                # a processed entry either got its TERM and is still tracked, or had already vanished and was forgotten
                z3.ForAll([p], Implies(inpre(p), Or(And(sel(k1, p) == sel(k0, p) + 1, sel(m1, p) == sel(m0, p)),
                                                    And(sel(k1, p) == sel(k0, p), sel(m1, p) == 0)))))
+
+
+# ======================================================================================================
+# murder_workers (C11): two-sided
+# ======================================================================================================
+def hb_of(st, r):
+    return sel(st.ghost["K_hb"], r)
+
+
+@contract("gunicorn.arbiter:Arbiter.murder_workers", props=("C11",))
+class MurderWorkers(Contract):
+    """for every tracked worker, at the instant it is looked at: heartbeat older than timeout -> first time ABRT (and marked
+    aborted), next time KILL; otherwise NO signal and the mark is untouched; timeout 0 disables the scan"""
+
+    def cases(self, env):
+        st = State()
+        a = mk_arbiter(env, st)
+        return [("scan", st, {"self": a}, {})]
+
+    def modifies(self, c):
+        W = A(c).fields["WORKERS"]
+        return [("field", W, "g_map"), ("field", W, "g_size"), ("ghost", "K_sig_SIGABRT"), ("ghost", "K_sig_SIGKILL"), ("ghost", "now"),
+                ("cheap", "WorkerObj", "aborted")]
+
+    def raises(self, c):
+        return [(OSError, None, lambda c2: {"errno": SInt(fresh_int("errno"))})]
+
+    def post(self, c):
+        st1, st0 = c.st, c.old
+        W = A(c).fields["WORKERS"]
+        m0 = w_map(st0, W)
+        to = A(c, st0).fields["timeout"].t
+        a1, a0 = sig_arr(st1, ABRT), sig_arr(st0, ABRT)
+        k1, k0 = sig_arr(st1, KILL), sig_arr(st0, KILL)
+        p = qvar("p")
+        t0, t1 = st0.ghost["now"], st1.ghost["now"]
+        fresh = lambda x: t1 - hb_of(st0, sel(m0, x)) <= z3.ToReal(to)      # still within the timeout at the END of the scan
+        stale = lambda x: t0 - hb_of(st0, sel(m0, x)) > z3.ToReal(to)       # already overdue at the START of the scan
+        nosig = lambda x: And(sel(a1, x) == sel(a0, x), sel(k1, x) == sel(k0, x))
+        return [("only-ABRT-and-KILL", And(*[z3.ForAll([p], sel(st1.ghost["K_sig_" + n], p) == sel(st0.ghost["K_sig_" + n], p))
+                                             for s, n in SIGNAME.items() if s not in (ABRT, KILL)])),
+                ("timeout-0-disables-the-scan", Implies(to == 0, z3.ForAll([p], nosig(p)))),
+                ("healthy-workers-never-get-a-signal", z3.ForAll([p], Implies(And(sel(m0, p) != 0, fresh(p)), And(nosig(p), aborted_of(st1, sel(m0, p)) == aborted_of(st0, sel(m0, p)))))),
+                ("untracked-pids-never-get-a-signal", z3.ForAll([p], Implies(sel(m0, p) == 0, nosig(p)))),
+                ("at-most-one-signal-per-worker-per-scan", z3.ForAll([p], And(sel(a1, p) >= sel(a0, p), sel(k1, p) >= sel(k0, p),
+                                                                            sel(a1, p) - sel(a0, p) + sel(k1, p) - sel(k0, p) <= 1))),
+                ("KILL-only-after-ABRT", z3.ForAll([p], Implies(sel(k1, p) > sel(k0, p), aborted_of(st0, sel(m0, p))))),
+                ("ABRT-marks-the-worker", z3.ForAll([p], Implies(sel(a1, p) > sel(a0, p), And(Not(aborted_of(st0, sel(m0, p))), aborted_of(st1, sel(m0, p)))))),
+                ]
+
+    loops = {0: dict(anchor="for (pid, worker) in workers", cands=[
+        ("processed-prefix", lambda L: _mu_inv(L)),
+        ("clock-monotone", lambda L: L.st.ghost["now"] >= L.fentry.ghost["now"]),
+        ("timeout-fixed", lambda L: L.st.obj(L.self).fields["timeout"].t == L.fentry.obj(L.self).fields["timeout"].t),
+    ])}
+
+
+def _mu_inv(L):
+    st1, st0 = L.st, L.fentry
+    W = st1.obj(L.self).fields["WORKERS"]
+    m0 = w_map(st0, W)
+    to = st0.obj(L.self).fields["timeout"].t
+    a1, a0 = sig_arr(st1, ABRT), sig_arr(st0, ABRT)
+    k1, k0 = sig_arr(st1, KILL), sig_arr(st0, KILL)
+    seq = L.st.obj(L.workers).sym
+    idx = L.loop_index
+    p, i = qvar("p"), qvar("i")
+    done = lambda q: z3.Exists([i], And(0 <= i, i < idx, seq.elem(i).items[0].t == q))
+    t1 = st1.ghost["now"]
+    nosig = lambda x: And(sel(a1, x) == sel(a0, x), sel(k1, x) == sel(k0, x))
+    rest = And(*[z3.ForAll([p], sel(st1.ghost["K_sig_" + n], p) == sel(st0.ghost["K_sig_" + n], p)) for s, n in SIGNAME.items() if s not in (ABRT, KILL)])
+    return And(rest,
+               z3.ForAll([p], Implies(Not(done(p)), And(nosig(p), Implies(sel(m0, p) != 0, aborted_of(st1, sel(m0, p)) == aborted_of(st0, sel(m0, p)))))),
+               z3.ForAll([p], Implies(done(p), And(
+                   sel(a1, p) >= sel(a0, p), sel(k1, p) >= sel(k0, p), sel(a1, p) - sel(a0, p) + sel(k1, p) - sel(k0, p) <= 1,
+                   Implies(sel(k1, p) > sel(k0, p), aborted_of(st0, sel(m0, p))),
+                   Implies(sel(a1, p) > sel(a0, p), And(Not(aborted_of(st0, sel(m0, p))), aborted_of(st1, sel(m0, p)))),
+                   Implies(sel(m0, p) != 0, Implies(t1 - hb_of(st0, sel(m0, p)) <= z3.ToReal(to),
+                                                    And(nosig(p), aborted_of(st1, sel(m0, p)) == aborted_of(st0, sel(m0, p)))))))),
+               st1.ghost["K_hb"] == st0.ghost["K_hb"])
